@@ -346,3 +346,48 @@ def poly_area_vec_sum(P):
 def unit(v):
     v = np.asarray(v, dtype=np.float64)
     return v / np.linalg.norm(v)
+
+
+def cap_boundary_pinched(polys, origin, normal, scale):
+    """The boundary that a cap has to close = edges of the kept polygons lying in the plane and used an odd number of
+    times. Returns True when more than two such edges meet in one point (section loops touching in a point, a
+    coplanar region touching the section loop): the cap region is then not a union of disjoint simple polygons."""
+    from scipy.spatial import cKDTree
+
+    origin = np.asarray(origin, dtype=np.float64)
+    normal = np.asarray(normal, dtype=np.float64)
+    tol_on = THR + 1e-11 * scale * float(np.linalg.norm(normal))
+    A, B = [], []
+    for P in polys:
+        on = np.abs((P - origin) @ normal) <= tol_on
+        k = len(P)
+        for i in range(k):
+            j = (i + 1) % k
+            if on[i] and on[j]:
+                A.append(P[i])
+                B.append(P[j])
+    if not A:
+        return False
+    pts = np.vstack((np.array(A), np.array(B)))
+    parent = list(range(len(pts)))
+
+    def find(x):
+        while parent[x] != x:
+            parent[x] = parent[parent[x]]
+            x = parent[x]
+        return x
+
+    for i, j in cKDTree(pts).query_pairs(1e-9 * scale + 2 * THR):
+        parent[find(i)] = find(j)
+    m = len(A)
+    cnt = Counter()
+    for i in range(m):
+        a, b = find(i), find(m + i)
+        if a != b:
+            cnt[(min(a, b), max(a, b))] += 1
+    deg = Counter()
+    for (a, b), c in cnt.items():
+        if c % 2 == 1:
+            deg[a] += 1
+            deg[b] += 1
+    return any(v > 2 for v in deg.values())
